@@ -18,12 +18,12 @@
 # 51 Franklin Street, Fifth Floor, Boston, MA 02110-1301 USA.
 #
 
-from miasmx.tools.modint import uint32
+from miasmx.tools.modint import uint16, uint32
 from miasmx.arch.ia32_reg import x86_afs
 from miasmx.arch.ia32_sem import mnemo_func, dict_to_Expr, init_regs, mov, \
     eip, esi, edi, ecx, zf, cs, dr7, cr0, tsc1, init_cr0, MMXnoflags
 from miasmx.expression.expression import ExprInt, ExprCond, ExprOp, ExprMem, \
-    ExprCompose
+    ExprCompose, ExprAff
 from miasmx.expression.expression_helper import expr_simp
 from miasmx.expression.expression_eval_abstract import eval_abs
 
@@ -41,6 +41,12 @@ log_emu_helper.addHandler(console_handler)
 log_emu_helper.setLevel(logging.WARN)
 
 jcc = ['jz', 'je', 'jne', 'jnz', 'jp', 'jnp', 'jg', 'jge', 'ja', 'jae', 'jb', 'jbe', 'jnb', 'jc', 'jnc', 'jl', 'jle', 'js', 'jns', 'jo', 'jno', 'loop', 'loopne', 'loope', 'jecxz']
+
+rep_string = ["ins", "outs", "movs", "lods", "stos", "cmps", "scas"]
+
+def is_rep_string(l):
+    return (0xF2 in l.prefix or 0xF3 in l.prefix) and \
+           not "MMX" in l.m.name and l.m.name[:-1] in rep_string
 
 def get_instr_expr_args(l, args, my_eip):
     for a in args:
@@ -64,6 +70,15 @@ def get_instr_expr_args(l, args, my_eip):
     else:
         # Raises an error
         e = mnemo_func[l.m.name](l, *args)
+    if is_rep_string(l):
+        # one iteration of the repeated instruction consumes the count
+        # (emul_full_expr loops on it)
+        if l.admode == x86_afs.u16:
+            count = ExprCompose([(ecx[:16] - ExprInt(uint16(1)), 0, 16),
+                                 (ecx[16:32], 16, 32)])
+        else:
+            count = ecx - ExprInt(uint32(1))
+        e.append(ExprAff(ecx, count))
     return e
 
 def get_instr_expr(l, my_eip, args = None, segm_to_do = set()):
@@ -100,9 +115,7 @@ def emul_lines(machine, lines):
     return my_eip
 
 def emul_full_expr(e, l, my_eip, env, machine):
-    if ((not 0xF2 in l.prefix) and (not 0xF3 in l.prefix)) or \
-           "MMX" in l.m.name or \
-           not l.m.name[:-1] in ["ins", "outs", "movs", "lods", "stos", "cmps", "scas"]:
+    if not is_rep_string(l):
         my_eip, mem_dst = emul_expr(machine, e, my_eip)
     else:
         #rep mnemo
